@@ -102,6 +102,7 @@ func runC11(r *Run) {
 
 	notFrozen := boolCallG("not frozen(msg.ValidatorAddress)", false, []string{fnIsFrozen}, nil, msgF(p, "ValidatorAddress"))
 	frozenWhy := "a frozen (guilty) validator's stake could still be changed or withdrawn"
+	checkLivePredicates(r, "C11.frozen", fnIsFrozen)
 	r.guardOb("C11.frozen", stake, "stake effects", callsTo(fnBalMinus, fnDelegStake, fnHandleStake), notFrozen, frozenWhy)
 	r.guardOb("C11.frozen", unstake, "unstake effects", callsTo(fnDelegUnstake, fnHandleUnst), notFrozen, frozenWhy)
 	r.guardOb("C11.frozen", withdraw, "withdraw effects", callsTo(fnDelegWithdr, fnBalAdd), notFrozen, frozenWhy)
